@@ -21,7 +21,9 @@ ENTRIES = {
                 "padding. TLC evaluates it for every length 1..4096 x signer and checks that reconstruct o split is "
                 "the identity on byte positions, that the count is minimal and that the signer costs exactly 20 bytes "
                 "of the first share; it also enumerates every stream of <= 4 items over 6 boundary blob kinds and 5 "
-                "reserved-namespace share kinds (1..3 blobs) with the expected reconstruct_all result. Every case is "
+                "reserved-namespace share kinds (1..3 blobs), and every reserved share kind (incl. parity) placed in every gap "
+                "INSIDE the share run of 2-, 3- and 5-share blobs (one gap or all gaps, with and without neighbouring "
+                "blobs), with the expected reconstruct_all result. Every case is "
                 "executed with real random data/namespaces/signers/app versions on Blob::new, to_shares, shares_len, "
                 "reconstruct and reconstruct_all.",
         "design_ref": "7 C11",
@@ -71,7 +73,7 @@ def run(ck):
         ck.cov["exhaustive"] = True
         ck.cov["rule"] = ("every (length 1..4096, signer) and every stream enumerated by TLC is executed; non-trivial = "
                           "distinct (length, signer) layout case, and distinct stream containing at least one "
-                          "reserved-namespace share")
+                          "reserved-namespace share, distinct (neighbours, blob kind, reserved kind, gap) inside case")
         ck.assumptions += ["random data / namespace / signer / app version per case from VERIF_SEED"]
     else:
         run_c12(ck, hb)
